@@ -370,8 +370,9 @@ impl Session {
             PeerCmd::RecvHave {
                 addr,
                 piece_index,
+                offered,
                 resp_ch,
-            } => self.handle_have(&addr, piece_index, resp_ch),
+            } => self.handle_have(&addr, piece_index, offered, resp_ch),
             PeerCmd::RecvBitfield {
                 addr,
                 bitfield,
@@ -501,10 +502,15 @@ impl Session {
         &mut self,
         addr: &String,
         piece_index: usize,
+        offered: bool,
         resp_ch: oneshot::Sender<HaveCmd>,
     ) -> Result<bool, Error> {
         let peer = self.peers.get_mut(addr).ok_or(Error::PeerNotFound)?;
-        let cmd = peer.handle_have(piece_index, &mut self.pieces_status, &self.metainfo);
+        // Offer could wait in task's queue, while peer sent new bitfield without this piece
+        let cmd = match offered && !peer.pieces[piece_index] {
+            true => HaveCmd::Ignore,
+            false => peer.handle_have(piece_index, &mut self.pieces_status, &self.metainfo),
+        };
         let _ = resp_ch.send(cmd);
         Ok(true)
     }
